@@ -433,4 +433,4 @@ def strategy():
 
 
 def tests(tier):
-    return [Test("wipe", strategy(), run_wipe, {"quick": 20000, "thorough": 200000}, CFG)]
+    return [Test("wipe", strategy(), run_wipe, {"quick": 14000, "thorough": 200000}, CFG)]
